@@ -1403,3 +1403,72 @@ directive @many repeatable on FIELD
         assert_eq!(diff_value(&v("$x"), &v("1")), Cmp::Diff("variable"));
     }
 }
+
+#[cfg(test)]
+mod lookalike_tests {
+    use super::super::parser::parse_document;
+    use super::*;
+
+    fn verdict(schema: &str, doc: &str) -> Verdict {
+        let s = RefSchema::from_document(&parse_document(schema).unwrap());
+        validate(&s, &parse_document(doc).unwrap())
+    }
+    fn valid(schema: &str, doc: &str) {
+        assert_eq!(verdict(schema, doc), Verdict::Valid, "{doc}");
+    }
+    fn invalid(schema: &str, doc: &str, code: &str) {
+        match verdict(schema, doc) {
+            Verdict::Invalid(c) => assert!(c.iter().any(|x| x.starts_with(code)), "{doc}: {c:?}"),
+            v => panic!("{doc}: expected {code}, got {v:?}"),
+        }
+    }
+
+    /// The reference has no cache: a conflicting selection set is reported whatever look-alike
+    /// valid set (content-equal fields below other parent types) was seen before or after it.
+    #[test]
+    fn merge_conflict_beside_a_lookalike_valid_set() {
+        const S: &str = "type Query { pet: Pet other: Pet } interface Pet { name: String nick: String } \
+                         type Dog implements Pet { name: String nick: String } type Cat implements Pet { name: String nick: String }";
+        let good = "... on Dog { x: name } ... on Cat { x: nick }";
+        let bad = "... on Dog { x: name } ... on Dog { x: nick }";
+        let bad_abstract = "... on Dog { x: name } ... on Pet { x: nick }";
+        valid(S, &format!("{{ pet {{ {good} }} }}"));
+        valid(S, &format!("{{ pet {{ {good} }} other {{ {good} }} }}"));
+        for b in [bad, bad_abstract] {
+            invalid(S, &format!("{{ other {{ {b} }} }}"), "E.merge");
+            invalid(S, &format!("{{ pet {{ {good} }} other {{ {b} }} }}"), "E.merge");
+            invalid(S, &format!("{{ other {{ {b} }} pet {{ {good} }} }}"), "E.merge");
+            invalid(S, &format!("{{ a: pet {{ {good} }} b: pet {{ {b} }} }}"), "E.merge");
+            invalid(S, &format!("query A {{ pet {{ {good} }} }} query B {{ pet {{ {b} }} }}"), "E.merge");
+            invalid(S, &format!("query A {{ pet {{ {b} }} }} query B {{ pet {{ {good} }} }}"), "E.merge");
+        }
+    }
+
+    /// IsVariableUsageAllowed / AreTypesCompatible (spec 5.8.5) for list types: a default (on
+    /// the variable or on the location) only waives the OUTER non-null of the location; item
+    /// types must be compatible in the direction variable -> location at every depth.
+    #[test]
+    fn list_variables_let_in_by_a_default() {
+        const S: &str = "type Query { strict(list: [Int!]!): Int loose(list: [Int]!): Int strictD(list: [Int!]! = [0]): Int \
+                         looseD(list: [Int]! = []): Int nested(list: [[Int!]]!): Int scalar(x: Int!): Int }";
+        invalid(S, "query($v: [Int]) { strict(list: $v) }", "E.varPosition");
+        invalid(S, "query($v: [Int]) { loose(list: $v) }", "E.varPosition");
+        invalid(S, "query($v: [Int!]) { strict(list: $v) }", "E.varPosition");
+        valid(S, "query($v: [Int] = [1]) { loose(list: $v) }");
+        valid(S, "query($v: [Int!] = [1]) { strict(list: $v) }");
+        invalid(S, "query($v: [Int] = [1]) { scalar(x: $v) }", "E.varPosition");
+        invalid(S, "query($v: [Int] = [1]) { strict(list: $v) }", "E.varPosition");
+        invalid(S, "query($v: [Int]) { strictD(list: $v) }", "E.varPosition");
+        valid(S, "query($v: [Int!]) { strictD(list: $v) }");
+        valid(S, "query($v: [Int!] = [1]) { loose(list: $v) }");
+        valid(S, "query($v: [Int!]) { looseD(list: $v) }");
+        valid(S, "query($v: [Int]) { looseD(list: $v) }");
+        invalid(S, "query($v: [[Int]] = [[1]]) { nested(list: $v) }", "E.varPosition");
+        valid(S, "query($v: [[Int!]!] = [[1]]) { nested(list: $v) }");
+        valid(S, "query($v: [[Int!]] = [[1]]) { nested(list: $v) }");
+        invalid(S, "query($v: [[Int]!] = [[1]]) { nested(list: $v) }", "E.varPosition");
+        invalid(S, "query($v: [Int] = [1]) { nested(list: $v) }", "E.varPosition");
+        valid(S, "query($v: [Int!]!) { loose(list: $v) }");
+        invalid(S, "query($v: [Int]!) { strict(list: $v) }", "E.varPosition");
+    }
+}
